@@ -23,7 +23,8 @@ statement into clauses, pick clauses no earlier change had attacked and break th
 by too little, pooling, early exits, refactorings, over-broad hardening, swapped decoders); round 5 (`r5`) gave the agent a catalogue of mistake classes from
 studies of real Go code (slice aliasing, range / shadowing slips, integer conversions, byte vs rune, operator slips, switch
 slips, nil vs empty, comparators, map order, early returns) and asked for classes not used before; round 6 (`r6`) asked for an inventory of the public routes to the behaviour
-(constructors, options, modes, alternative entry points, optional members) and a mistake on a route an ordinary test is least likely to travel. `/verif/regress_seeded.sh` re-applies every kept
+(constructors, options, modes, alternative entry points, optional members) and a mistake on a route an ordinary test is least likely to travel; round 7 (`r7`) asked for
+changes outside the anchored files (helper packages, option plumbing) whose violation needs two independent ordinary conditions to coincide. `/verif/regress_seeded.sh` re-applies every kept
 change and re-runs the quick tier of its property, so a later edit of a check cannot silently lose one.
 
 **%d changes kept; %d were missed at first and led to a stronger check** (all are caught now):
